@@ -14,10 +14,12 @@ func init() {
 	register(&mc.Prop{
 		ID: "C11",
 		Rule: "every (configuration x type-in-position x boundary value) of the universe (values at the reduced level): Unmarshal side - the input is snapshotted, decoded from a buffer with spare capacity, must be unchanged afterwards, no string / slice backing array reachable from the decoded value may intersect input[0:cap] (address ranges), " +
-			"and after the input is overwritten and re-used for another Marshal the decoded value still equals its deep copy; Marshal side - the value and buf[:len] are snapshotted and must be unchanged, and the appended region must not intersect memory reachable from the value. non-trivial = value containing at least one non-empty string or slice",
+			"and after the input is overwritten and re-used for another Marshal the decoded value still equals its deep copy; then, on a fresh instance: decode v from buffer A, overwrite A with the encoding of X (same shape and lengths, shifted contents), decode a new distinct Y, decode X from another buffer - it must read X (no instance state may alias A); Marshal side - the value and buf[:len] are snapshotted and must be unchanged, and the appended region must not intersect memory reachable from the value. non-trivial = value containing at least one non-empty string or slice",
 		Assumptions: []string{"address ranges are read with reflect/unsafe from the live values; map bucket storage is not inspected directly, its keys and values are (via iteration)"},
 		Work:        func(c *mc.Ctx) { enumItems(c, withRecursive(ref.Universe(c.Tier)), c11Case) },
-		Post:        func(a *mc.Agg) []string { return needDims(a, "ranges-checked", "scribbled", "marshal-side") },
+		Post: func(a *mc.Agg) []string {
+			return needDims(a, "ranges-checked", "scribbled", "marshal-side", "instance-state-aliasing")
+		},
 	})
 }
 
@@ -184,6 +186,38 @@ func c11Case(c *mc.Ctx, cfg ref.Cfg, it ref.Item, v ref.V, vs string, undoc stri
 			if s := ref.Str(t, ref.FromReflect(t, dst2.Elem())); s != decoded {
 				c.Violation(pre+"second-decode-differs-after-input-overwritten", fmt.Sprintf("first %s second %s", decoded, s))
 				return
+			}
+		}
+		// aliasing through the instance's own state (interning tables, pools): a fresh instance
+		// decodes v from a buffer, the caller re-uses that buffer for X (same shape and lengths,
+		// other contents), a new distinct value Y is decoded, then X is decoded from elsewhere
+		if hasPayload(t, v) {
+			c.Dim("instance-state-aliasing")
+			q := NewPlenc(cfg)
+			x, y := ref.ShiftStrings(t, v, 1), ref.ShiftStrings(t, v, 2)
+			encOf := func(val ref.V) []byte {
+				b, _ := q.Marshal(nil, ref.ToReflect(t, val).Addr().Interface())
+				return b
+			}
+			ex, ey := encOf(x), encOf(y)
+			bufA := append([]byte(nil), data...)
+			d1 := fresh(t)
+			if q.Unmarshal(bufA, d1.Interface()) == nil && len(ex) == len(bufA) {
+				copy(bufA, ex) // the caller re-uses its buffer
+				q.Unmarshal(append([]byte(nil), ey...), fresh(t).Interface())
+				d3 := fresh(t)
+				if err := q.Unmarshal(append([]byte(nil), ex...), d3.Interface()); err == nil {
+					want := ref.Expect(cfg, t, "", x, false)
+					if path, detail, differ := ref.Diff(t, want, ref.FromReflect(t, d3.Elem())); differ && !ref.NestedAbsent(t, x) {
+						c.Violation(pre+"later-decode-sees-reused-input-buffer:"+path, fmt.Sprintf("decode %s from A; overwrite A with the encoding of %s; decode %s; decode %s elsewhere: %s",
+							vs, ref.Str(t, x), ref.Str(t, y), ref.Str(t, x), detail))
+						return
+					}
+				}
+				if s := ref.Str(t, ref.FromReflect(t, d1.Elem())); s != ref.Str(t, ref.FromReflect(t, dst.Elem())) {
+					c.Violation(pre+"decoded-value-changed-after-input-reused", s)
+					return
+				}
 			}
 		}
 		c.Outcome("ok")
